@@ -55,6 +55,17 @@ class _Sink(object):
         self.got.append(dictionary)
 
 
+class _TeeLogger(object):
+    """An application-defined ILogger: counts what passes through, forwards to the production logger and returns a (truthy) value;
+    ILogger.write's return value is unspecified and must not matter to anybody."""
+    seen = 0
+
+    def write(self, dictionary, serializer=None):
+        _TeeLogger.seen += 1
+        eliot.Logger().write(dictionary, serializer)
+        return _TeeLogger.seen
+
+
 class Interp(object):
     def __init__(self, tape=None, remote_fork=None, finish_outside=True, ser_hook=None):
         self.tape = tape
@@ -69,6 +80,12 @@ class Interp(object):
         self.tls = threading.local()
         self.after_api = None  # called after every eliot API call that returned (C11 acknowledgements)
         self._stdlib = None
+        self.tb_without_exception = False
+        self.cross_thread = False  # part of the action blocks are entered and run on another thread than the one that created the Action
+        self.stdlib_tb = False  # part of the traceback nodes go through logging.Logger.error(exc_info=...) and eliot.stdlib.EliotHandler
+        self.before_msg = None  # hooks around every message-logging node: mark = before_msg(); ...; after_msg(mark)
+        self.after_msg = None
+        self.late_messages = False  # log a message in the context of an action that has just been finished (inside its own context())
         self._stdlib_lock = threading.Lock()
         self.explicit_loggers = False  # pass an explicit eliot.Logger() to the calls that take one, for a third of the nodes
         self.allow_defer = False  # run remote nodes marked "defer" only after the whole program (parent already finished)
@@ -89,6 +106,8 @@ class Interp(object):
     def lg(self, nid):
         """Some calls name the production logger explicitly (the API accepts one everywhere); the rest use the default."""
         if self.explicit_loggers and isinstance(nid, int) and nid % 3 == 0:
+            if nid % 2 == 0:
+                return (_TeeLogger(),)  # an application's own ILogger (forwards to the production logger, returns a value)
             return (eliot.Logger(),)
         return ()
 
@@ -254,6 +273,14 @@ class Interp(object):
         fields["nid"] = node["nid"]
         decl = node.get("decl")
         self.count("msg:" + style)
+        mark = self.before_msg() if self.before_msg is not None else None
+        try:
+            return self._exec_msg(node, gt_children, cur, style, t, fields, decl)
+        finally:
+            if self.after_msg is not None:
+                self.after_msg(mark)
+
+    def _exec_msg(self, node, gt_children, cur, style, t, fields, decl):
         if style == "action.log" and cur is None:
             style = "log_message"
         if style == "log_message":
@@ -306,7 +333,39 @@ class Interp(object):
     def exec_tb(self, node, gt_children, cur):
         exc = excs.make(node["exc"], "tb nid=%d" % node["nid"])
         self.count("traceback")
-        if node["nid"] % 3 == 1:
+        if self.tb_without_exception and node["nid"] % 4 == 3:
+            # write_traceback() in a finally block on the success path / after the except block is over: nothing is being handled.
+            # (eliot reports a serialization failure instead; only "does not raise" is judged, by the checks that switch this on)
+            self.count("traceback:no exception in flight")
+            if node["nid"] % 8 == 3:
+                self.api("write_traceback()", write_traceback)
+            else:
+                import sys as _sys
+                self.api("write_traceback(exc_info=(None, None, None))", write_traceback, exc_info=_sys.exc_info())
+            return
+        if self.stdlib_tb and node["nid"] % 3 == 2:
+            # through the standard library: logger.error(..., exc_info=<saved>) after the except block is over, or while a different
+            # exception is being handled; the record's exception is the one whose traceback gets logged
+            import sys as _sys
+            try:
+                raise exc
+            except Exception:
+                info = _sys.exc_info()
+            lg_ = self._stdlib_logger()
+            text = "stdlib message nid=%s" % (node["nid"],)
+            if node["nid"] % 2:
+                self.api("logging.Logger.error(exc_info=saved)", lg_.error, "stdlib message nid=%s", node["nid"], exc_info=info)
+            else:
+                try:
+                    raise KeyError("another exception is being handled")
+                except KeyError:
+                    self.api("logging.Logger.error(exc_info=saved) while handling another", lg_.error, "stdlib message nid=%s", node["nid"], exc_info=info)
+            del info
+            self.count("traceback:stdlib exc_info")
+            gt0 = {"kind": "message", "type": "eliot:stdlib", "fields": {"log_level": "ERROR", "logger": lg_.name, "message": text, "nid": node["nid"]},
+                   "nid": node["nid"]}
+            self._attach(None if cur is None else gt_children, gt0)
+        elif node["nid"] % 3 == 1:
             # the exc_info form, used after the except block has been left
             import sys as _sys
             try:
@@ -441,7 +500,31 @@ class Interp(object):
                 body_exc[0] = e
                 raise
 
-        if style in ("with", "ActionType", "as_task", "start_task"):
+        if style in ("with", "ActionType", "as_task", "start_task", "ctx_finish", "run_finish") and self.cross_thread and node["nid"] % 5 == 2:
+            # the Action object was created here, its block is entered, run and left on ANOTHER thread (joined at once): the action is
+            # current there for the length of the block, that thread has no current action before and after, this thread is unaffected
+            self.count("act:block on another thread")
+            box = []
+
+            def on_thread():
+                self.probe(None, "on a new thread before entering action %s created by its parent thread" % node["nid"])
+                try:
+                    if style == "ctx_finish":
+                        with action.context():
+                            guarded_body()
+                    elif style == "run_finish":
+                        action.run(guarded_body)
+                    else:
+                        with action:
+                            guarded_body()
+                except BaseException as e:
+                    box.append(e)
+                self.probe(None, "on the new thread after leaving action %s" % node["nid"])
+            th = threading.Thread(target=on_thread)
+            th.start()
+            th.join()
+            out = box[0] if box else None
+        elif style in ("with", "ActionType", "as_task", "start_task"):
             try:
                 with action:
                     guarded_body()
@@ -474,6 +557,13 @@ class Interp(object):
                         out = e
                     self.api("Action.finish inside its own context()", action.finish, out)
                     self.probe(action, "after finish() inside action %s's own context()" % node["nid"])
+                    if self.late_messages and node["nid"] % 2 == 0:
+                        # still inside the context of the (now finished) action: the message is logged there, after its end
+                        self.count("msg:after the action's end")
+                        mark = self.before_msg() if self.before_msg is not None else None
+                        self.api("log_message after finish()", log_message, message_type="late", late_for=node["nid"])
+                        if self.after_msg is not None:
+                            self.after_msg(mark)
             except BaseException as e:
                 self.viol("leaving context() of action %s raised %r" % (node["nid"], e))
         elif style == "ctx_finish":
